@@ -44,7 +44,7 @@ type dualProvCloseSc struct {
 	HonourCtx  bool   `json:"honour_ctx"` // the held request ends with its context, or only when released
 	NClose     int    `json:"n_close"`
 	LateOps    []int  `json:"late_ops"`             // calls made after the first Close call was started: 0 start 1 stop 2 once 3 clear 4 refresh
-	BadOption  string `json:"bad_option,omitempty"` // "" | nil-dht | workers (constructor failure)
+	BadOption  string `json:"bad_option,omitempty"` // "" | nil-dht | workers | wan-bucket-0 | lan-bucket-0 (constructor failure; the last two: that half of the dual DHT was built with bucket size 0, which its provider refuses as replication factor - the failure comes after the keystore / the first provider were started)
 }
 
 var dualProvMu sync.Mutex
@@ -59,7 +59,7 @@ func TestVerif_C14_DualProvider(t *testing.T) {
 		Rule: "rapid: provider/dual.New over a dual DHT (dual.New on a fake host, both swarms behind one simulated network with a gate; 0-6 WAN and 0-3 LAN routing-table members), with and without a reprovide schedule, with its own or a given " +
 			"keystore, 0-4 keys started; optionally the n-th request reaching the simulated network (a probe's, a prefix-length measurement's or a provide's lookup on either swarm) is held, by a network that returns on context cancellation " +
 			"or one that does not; 1-3 Close calls started one after the other (each once the previous one returned or is seen blocked), 0-3 further API calls in between, then the gate is released; failing constructors (nil DHT, invalid " +
-			"option); real time; oracle: a Close call that has returned leaves no goroutine of either inner provider, their connectivity checkers, the wrapper or its own keystore, every call returns after the release, calls after Close do not " +
+			"option, one half of the dual DHT built with bucket size 0 so that its provider - the first or the second to be built - refuses the replication factor); real time; oracle: a Close call that has returned leaves no goroutine of either inner provider, their connectivity checkers, the wrapper or its own keystore, every call returns after the release, calls after Close do not " +
 			"panic, a failed constructor leaves none of those goroutines; non-trivial = a request was held while a Close call was pending",
 		Gen: func(t *rapid.T) dualProvCloseSc {
 			sc := dualProvCloseSc{
@@ -76,8 +76,8 @@ func TestVerif_C14_DualProvider(t *testing.T) {
 			if verifsim.Chance(t, "noHold", 15) {
 				sc.HoldAt = -1
 			}
-			if verifsim.Chance(t, "bad", 8) {
-				sc.BadOption = rapid.SampledFrom([]string{"nil-dht", "workers"}).Draw(t, "badOption")
+			if verifsim.Chance(t, "bad", 15) {
+				sc.BadOption = rapid.SampledFrom([]string{"nil-dht", "workers", "wan-bucket-0", "wan-bucket-0", "lan-bucket-0"}).Draw(t, "badOption")
 			}
 			return sc
 		},
@@ -116,13 +116,26 @@ func TestVerif_C14_DualProvider(t *testing.T) {
 			}
 			h.ConnectFn = sim.Connect
 			sender := dht.WithCustomMessageSender(func(host.Host, []protocol.ID) pb.MessageSenderWithDisconnect { return sim })
+			wanOpts, lanOpts := []dht.Option{dht.ProtocolPrefix("/simwan")}, []dht.Option{dht.ProtocolPrefix("/simlan")}
+			switch sc.BadOption {
+			case "wan-bucket-0":
+				wanOpts = append(wanOpts, dht.BucketSize(0))
+			case "lan-bucket-0":
+				lanOpts = append(lanOpts, dht.BucketSize(0))
+			}
 			d, err := ddht.New(h, ddht.DHTOption(dht.DisableAutoRefresh(), dht.BucketSize(4), dht.Mode(dht.ModeClient), sender),
-				ddht.WanDHTOption(dht.ProtocolPrefix("/simwan")), ddht.LanDHTOption(dht.ProtocolPrefix("/simlan")))
+				ddht.WanDHTOption(wanOpts...), ddht.LanDHTOption(lanOpts...))
 			if err != nil {
 				res.Fail("constructs", "C14/dual-provider/dual-dht", "%v", err)
 				return
 			}
 			defer d.Close()
+			if sc.BadOption == "wan-bucket-0" {
+				sc.WanPeers = 0 // (a routing table with bucket size 0 cannot take a member)
+			}
+			if sc.BadOption == "lan-bucket-0" {
+				sc.LanPeers = 0
+			}
 			for i := 0; i < sc.WanPeers; i++ {
 				id := peer.ID(pp.IDs[i])
 				a := ma.StringCast(fmt.Sprintf("/ip4/8.%d.8.1/tcp/4001", i+8)) // (one /16 each: the WAN table's diversity filter)
@@ -181,6 +194,17 @@ func TestVerif_C14_DualProvider(t *testing.T) {
 				return out
 			}
 			switch sc.BadOption {
+			case "wan-bucket-0", "lan-bucket-0":
+				_, err := New(d, opts...)
+				if err == nil {
+					res.Fail("constructor-fails", "C14/dual-provider/bucket-0-accepted", "New over a dual DHT whose %s half has bucket size 0 returned no error", sc.BadOption[:3])
+				}
+				if left := leftOver(300 * time.Millisecond); len(left) > 0 {
+					res.Fail("failed-constructor-clean", "C14/dual-provider/goroutine-left-after-failed-new", "%d goroutine(s) left after New failed on the %s provider (replication factor 0):\n%s", len(left), sc.BadOption[:3], left[0])
+				}
+				res.Class("failed-constructor")
+				res.NonTrivial = true
+				return
 			case "nil-dht":
 				_, err := New(nil, opts...)
 				if err == nil {
